@@ -83,7 +83,12 @@ func main() {
 			sites, err := unprovenBounds(c)
 			fmt.Println(len(sites), err)
 			for _, s := range sites {
-				fmt.Printf("%s:%d:%d\t%s\t%s\t%s\t%s\n", s.File, s.Line, s.Col, s.Kind, s.Func, s.Expr, s.Src)
+				in := c.bceInstr(s)
+				t := "-"
+				if in != nil {
+					t = c.bceTerm(in)
+				}
+				fmt.Printf("%s:%d:%d\t%s\t%s\t%s\t%s\t%s\n", s.File, s.Line, s.Col, s.Kind, s.Func, s.Expr, s.Src, t)
 			}
 			return
 		}
